@@ -26,8 +26,8 @@ ASSUMPTIONS = ["integer random_state only", "hyperparameter immutability is asse
                "for path(): path() must give the same result when repeated (property text), which implies that it leaves "
                "alpha, dynamic and every other hyperparameter as it found them"]
 EVAL_COUNTER = "histories"
-REQUIRED = {"quick": dict({"kauri_precomputed_calls_without_matrix": 5, "histories": 450, "final_states_compared": 420, "side_effect_checks": 1200, "crashed_fits_injected": 60,
-                           "paths_in_history": 40, "histories_reconfigured_for_good": 90, "final_paths_compared": 40, "clone_roundtrips": 450, "refits_compared": 400},
+REQUIRED = {"quick": dict({"kauri_precomputed_calls_without_matrix": 8, "histories": 450, "final_states_compared": 420, "side_effect_checks": 1200, "crashed_fits_injected": 60,
+                           "paths_in_history": 40, "histories_reconfigured_for_good": 90, "final_paths_compared": 20, "clone_roundtrips": 450, "refits_compared": 400},
                           **{"hist:" + e: 12 for e in gen.ESTIMATORS}),
             "thorough": {"histories": 9000}}
 SHARD_TIMEOUT = {"quick": 1200, "thorough": 7000}
@@ -126,7 +126,8 @@ def run_case(case, ctx, st):
         params["groups"] = None if rng.random() < 0.6 else params.get("groups")
         if params["alpha"] == 0:
             params["alpha"] = 0.05
-    if name == "Kauri" and params.get("kernel") != "precomputed" and rng.random() < 0.35:
+    forced_fallback = name == "Kauri" and (i // len(names)) % 2 == 0      # every other Kauri history, whatever the seed
+    if name == "Kauri" and params.get("kernel") != "precomputed" and (forced_fallback or rng.random() < 0.35):
         params["kernel"], pre = "precomputed", "kernel"
     yref = gen.precomputed_for(rng, pre, n)
     is_kauri_pre = name == "Kauri" and params.get("kernel") == "precomputed"
@@ -258,8 +259,11 @@ def run_case(case, ctx, st):
         menu += ["path", "crash_path", "path"]
     if is_kauri_pre:
         menu += ["documented_fallback", "documented_fallback", "documented_fallback"]
-    for _ in range(L):
-        op = menu[int(rng.integers(0, len(menu)))]
+    forced_at = int(rng.integers(0, L + 1)) if forced_fallback else -1
+    if forced_fallback:
+        L += 1
+    for step_no in range(L):
+        op = "documented_fallback" if step_no == forced_at else menu[int(rng.integers(0, len(menu)))]
         ops.append(op)
         if op == "fit_other":
             X2, y2 = other_data()
